@@ -475,13 +475,29 @@ def r02c(model, ctx):
               "emit_value must iterate self.assignments directly (program order = priority order)",
               f"{IR}:{fv.lineno}")
     # the "fold into default" shortcut is only legal for the first, unconditional, full-chunk assignment
-    conds = [n for n in ast.walk(fv) if isinstance(n, ast.If) and any(
+    from ..engine.norm import linear_rref, poly as _poly, poly_sub as _psub
+    fvv = model.func_view(f"{IR}::NetlistDriver.emit_value")
+    conds = [n for n in ast.walk(fvv) if isinstance(n, ast.If) and any(
         isinstance(s, ast.Assign) and unparse(s.targets[0]) == "default" for s in n.body)]
     ok = len(conds) == 1
     if ok:
-        t = unparse(conds[0].test)
-        ok = all(x in t for x in ["assign.cond == 1", "assign.start == chunk_start", "len(assign.value) == chunk_len",
-                                  "len(assignments) == 0"])
+        # the conjunction of the test, as a system of linear equalities (any equivalent system is accepted: e.g.
+        # start + len == chunk_end instead of len == chunk_end - chunk_start, given start == chunk_start) plus the
+        # "no assignment kept so far" test
+        def split(test):
+            items = test.values if isinstance(test, ast.BoolOp) and isinstance(test.op, ast.And) else [test]
+            eqs, other = [], []
+            for it in items:
+                if isinstance(it, ast.Compare) and len(it.ops) == 1 and isinstance(it.ops[0], ast.Eq) and \
+                        unparse(it) not in ("len(assignments) == 0",):
+                    eqs.append(_psub(_poly(it.left), _poly(it.comparators[0])))
+                else:
+                    tx = unparse(it)
+                    other.append("EMPTY(assignments)" if tx in ("len(assignments) == 0", "not assignments", "assignments == []") else tx)
+            return linear_rref(eqs), sorted(other)
+        want = split(ast.parse("assign.cond == 1 and assign.start == chunk_start and len(assign.value) == chunk_end - chunk_start "
+                               "and len(assignments) == 0", mode="eval").body)
+        ok = split(conds[0].test) == want
     ctx.check(ok, R, "NetlistDriver.emit_value:default-fold",
               "an assignment replaces the default only if unconditional, full-chunk and first",
               "folding an assignment into the default is only sound when it is unconditional, covers the whole chunk "
